@@ -140,18 +140,18 @@ def write_evidence(prop, tier, seed, level, coverage, wall_s, violations, assump
 PIE_PROPS = {
     "C01": {"fams": [("WF", 90, 1500, {})], "curated": [], "design": ["td"]},
     "C02": {"fams": [("WF", 90, 1500, {})], "curated": ["f1_same_target_twice.jsonl"], "design": ["td"]},
-    "C03": {"fams": [("WF", 90, 1500, {"steps": 6})], "curated": [], "design": ["bu"]},
+    "C03": {"fams": [("WF", 90, 1500, {"steps": 6})], "curated": ["known_findings.jsonl"], "design": ["bu"]},
     "C04": {"fams": [("WF", 90, 1500, {"steps": 6})], "curated": [], "design": ["bu"]},
     "C05": {"fams": [("INJ", 120, 2000, {})], "curated": [], "design": ["inj"]},
     "C06": {"fams": [("INJ", 90, 1500, {}), ("WF", 40, 600, {})], "curated": [], "design": ["inj"]},
     "C07": {"fams": [("INJ", 120, 2000, {})], "curated": [], "design": ["inj"]},
-    "C08": {"fams": [("WF", 70, 1200, {}), ("TWOCHK", 40, 600, {})], "curated": [], "design": ["td"]},
+    "C08": {"fams": [("WF", 70, 1200, {}), ("TWOCHK", 40, 600, {})], "curated": ["k2_two_checkers.jsonl"], "design": ["td"]},
     "C09": {"fams": [("WF", 90, 1500, {})], "curated": [], "design": ["td"]},
     "C15": {"fams": [("IDENT", 90, 1500, {})], "curated": [], "design": []},
     "C17": {"fams": [("WF", 60, 1000, {}), ("INJ", 30, 500, {}), ("FAULT", 20, 300, {})], "curated": [], "design": []},
     "C18": {"fams": [("FAULT", 100, 1800, {})], "curated": [], "design": []},
-    "C19": {"fams": [("ABORT", 80, 1400, {}), ("INJ", 40, 600, {})], "curated": [], "design": []},
-    "C20": {"fams": [("ROLE", 90, 1500, {"max_t": 4}), ("WF", 40, 600, {})], "curated": [], "design": []},
+    "C19": {"fams": [("ABORT", 80, 1400, {}), ("INJ", 40, 600, {})], "curated": ["f2_abort_then_require.jsonl"], "design": []},
+    "C20": {"fams": [("ROLE", 90, 1500, {"max_t": 4}), ("WF", 40, 600, {})], "curated": ["known_findings.jsonl"], "design": []},
 }
 
 ASSUME_PIE = [
@@ -174,7 +174,25 @@ def run_pie_check(prop, tier, seed, replay):
     scn_file = os.path.join(WORK, "%s.scn.jsonl" % tag)
     trace_file = os.path.join(WORK, "%s.trace.ndjson" % tag)
     out_file = os.path.join(WORK, "%s.result.json" % tag)
+    design = []
+    sim_stats = None
     with open(scn_file, "w") as out:
+        if not replay:
+            quick_cfgs, more_cfgs, sim_cfg = PROP_DESIGN.get(prop, ([], [], None))
+            for name in quick_cfgs + (more_cfgs if tier == "thorough" else []):
+                r = run_mc(name, timeout=3000)
+                if r["violated"] or not r["completed"]:
+                    raise ToolError("design-level check %s of the specification failed (independent of /repo): %s %s\n%s"
+                                    % (name, r.get("violated"), r.get("viol"), r.get("error_tail", r.get("trace_tail", ""))[-3000:]))
+                design.append({k: r[k] for k in ("name", "distinct", "generated", "depth", "wall_s", "params")})
+            if sim_cfg:
+                num = 150 if tier == "quick" else 3000
+                r, sims = tlc_scenarios(sim_cfg, {}, num, 400, seed, cap=120 if tier == "quick" else 2500)
+                if r["violated"]:
+                    raise ToolError("simulation of the specification raised %s %s" % (r["violated"], r.get("viol")))
+                sim_stats = {"config": sim_cfg, "behaviours": num, "states_generated": r["generated"], "scenarios_replayed": len(sims)}
+                for sc in sims:
+                    out.write(json.dumps(sc) + "\n")
         if replay:
             rp = json.load(open(replay))
             out.write(json.dumps(rp["scenario"]) + "\n")
@@ -235,7 +253,10 @@ def run_pie_check(prop, tier, seed, replay):
     for r in res["runs"]:
         fams[r["fam"]] = fams.get(r["fam"], 0) + 1
     coverage = {
-        "states": res["tlc"]["distinct"], "transitions": res["tlc"]["generated"],
+        "states": res["tlc"]["distinct"] + sum(d["distinct"] for d in design),
+        "transitions": res["tlc"]["generated"] + sum(d["generated"] for d in design) + (sim_stats["states_generated"] if sim_stats else 0),
+        "design_configs": design, "design_simulation": sim_stats,
+        "trace_validation": res["tlc"],
         "traces_validated_against_impl": len(res["runs"]),
         "samples": [summarize_scn(s) for s in scns[:2]],
         "evaluations": evals, "distinct_nontrivial": nontrivial,
@@ -278,3 +299,177 @@ ALL_CHECKS = set(PIE_PROPS.keys())
 ENGINE_OF = {}
 TECHNIQUE_OF = {}
 NOT_YET = {}
+
+
+# ------------------------------------------------------------------------------------------------ design-level model checking
+
+MC_DEFAULT = dict(NT=2, NR=1, NV=2, NA=2, LEN=2, Family="WF", Writer=[0], RChks=["eq"], OChks=["eq"], WChks=["eq"],
+                  Fs=[0, 2], MaxSessions=2, MaxChanges=1, MaxRoots=1, MaxBU=0, CheckLeftoverOfAborted=False,
+                  EdgeReinsertMovesToBack=False, EmitScenarios=False)
+
+# name -> parameter overrides.  Quick configurations finish in well under a minute each.
+MC_CONFIGS = {
+    # top-down
+    "td_2t1r": dict(RChks=["eq", "par"], MaxSessions=3, MaxChanges=2),
+    "td_coarse": dict(RChks=["eq", "par", "any"], OChks=["eq", "res"], Fs=[2], MaxSessions=2, MaxChanges=1),
+    "td_gen": dict(NR=2, Writer=[0, 2], Fs=[2], MaxSessions=2, MaxChanges=1),
+    "td_2t2r_gen": dict(NR=2, Writer=[0, 2], MaxSessions=2, MaxChanges=1),
+    "td_3t1r": dict(NT=3, LEN=2, Fs=[2], MaxSessions=2, MaxChanges=1),
+    "td_twice": dict(LEN=3, Fs=[2], MaxSessions=2, MaxChanges=1),
+    "td_2t2r_wide": dict(NR=2, Writer=[0, 0], RChks=["eq", "par"], MaxSessions=2, MaxChanges=1),
+    # bottom-up
+    "bu_2t1r": dict(MaxSessions=3, MaxChanges=1, MaxBU=1, Fs=[2]),
+    "bu_2t1r_mixed": dict(MaxSessions=4, MaxChanges=1, MaxBU=1, MaxRoots=2, Fs=[2]),
+    "bu_2t2r_gen": dict(NR=2, Writer=[0, 2], MaxSessions=3, MaxChanges=1, MaxBU=1, Fs=[2]),
+    "bu_3t1r": dict(NT=3, MaxSessions=3, MaxChanges=1, MaxBU=1, Fs=[2]),
+    # injected violations, role changes, aborts, checker faults
+    "inj_2t2r": dict(Family="INJ", NR=2, Writer=[0, 2], Fs=[2], MaxSessions=2, MaxChanges=0),
+    "inj_2t2r_bu": dict(Family="INJ", NR=2, Writer=[0, 2], Fs=[2], MaxSessions=3, MaxChanges=1, MaxBU=1),
+    "role_2t1r": dict(Family="ROLE", NR=1, Fs=[2], MaxSessions=3, MaxChanges=2),
+    "role_2t2r": dict(Family="ROLE", NR=2, Fs=[2], MaxSessions=2, MaxChanges=1),
+    "abort_2t1r": dict(Family="ABORT", Fs=[2], MaxSessions=3, MaxChanges=0),
+    "abort_2t2r_gen": dict(Family="ABORT", NR=2, Writer=[0, 2], Fs=[2], MaxSessions=3, MaxChanges=0),
+    "fault_2t1r": dict(Family="FAULT", RChks=["eqF"], Fs=[2], MaxSessions=2, MaxChanges=1),
+    "fault_2t1r_bu": dict(Family="FAULT", RChks=["eqF"], Fs=[2], MaxSessions=3, MaxChanges=2, MaxBU=1),
+    # wide universes for simulation only
+    "sim_wf": dict(NT=4, NR=3, Writer=[0, 0, 3], NV=3, NA=3, LEN=3, RChks=["eq", "par", "ex"], OChks=["eq", "res", "okeq"], Fs=[3],
+                   MaxSessions=5, MaxChanges=4, MaxRoots=2, MaxBU=2),
+    "sim_inj": dict(Family="INJ", NT=3, NR=3, Writer=[0, 0, 3], NV=3, NA=3, LEN=3, Fs=[3], MaxSessions=4, MaxChanges=2, MaxRoots=2, MaxBU=1),
+    "sim_role": dict(Family="ROLE", NT=3, NR=2, Writer=[0, 0], NV=2, NA=3, LEN=3, Fs=[2], MaxSessions=4, MaxChanges=3, MaxRoots=2),
+    "sim_abort": dict(Family="ABORT", NT=3, NR=3, Writer=[0, 0, 3], NV=3, NA=3, LEN=3, Fs=[3], MaxSessions=5, MaxChanges=2, MaxRoots=2, MaxBU=1),
+    "sim_fault": dict(Family="FAULT", NT=3, NR=3, Writer=[0, 0, 3], NV=3, NA=3, LEN=3, RChks=["eqF", "eq"], WChks=["eq", "eqF"], Fs=[3],
+                      MaxSessions=5, MaxChanges=4, MaxRoots=2, MaxBU=1),
+}
+
+# per property: exhaustive design configurations (quick, additional thorough) and the simulation universe whose
+# behaviours are replayed on the implementation
+PROP_DESIGN = {
+    "C01": (["td_3t1r", "td_gen"], ["td_2t1r", "td_2t2r_gen", "td_2t2r_wide"], "sim_wf"),
+    "C02": (["td_twice", "td_3t1r"], ["td_2t1r", "td_2t2r_wide"], "sim_wf"),
+    "C03": (["bu_2t1r", "bu_2t1r_mixed"], ["bu_2t2r_gen", "bu_3t1r"], "sim_wf"),
+    "C04": (["bu_2t1r", "bu_2t1r_mixed"], ["bu_2t2r_gen", "bu_3t1r"], "sim_wf"),
+    "C05": (["inj_2t2r"], ["inj_2t2r_bu"], "sim_inj"),
+    "C06": (["inj_2t2r"], ["inj_2t2r_bu", "td_2t2r_gen"], "sim_inj"),
+    "C07": (["inj_2t2r"], ["inj_2t2r_bu"], "sim_inj"),
+    "C08": (["td_twice", "td_gen"], ["td_2t2r_gen", "bu_2t2r_gen"], "sim_wf"),
+    "C09": (["td_coarse"], ["td_2t1r", "bu_2t2r_gen"], "sim_wf"),
+    "C15": ([], [], None),
+    "C17": (["bu_2t1r"], ["bu_2t2r_gen", "inj_2t2r_bu"], "sim_wf"),
+    "C18": (["fault_2t1r"], ["fault_2t1r_bu"], "sim_fault"),
+    "C19": (["abort_2t1r"], ["abort_2t2r_gen"], "sim_abort"),
+    "C20": (["role_2t1r"], ["role_2t2r"], "sim_role"),
+}
+
+
+def tla_val(v):
+    if isinstance(v, bool):
+        return "TRUE" if v else "FALSE"
+    if isinstance(v, int):
+        return str(v)
+    if isinstance(v, str):
+        return '"%s"' % v
+    raise ValueError(v)
+
+
+def run_mc(name, overrides=None, workers=None, timeout=1800, simulate=None, extra_inv=""):
+    """Model-checks Pie.tla under the named configuration; returns TLC statistics and the violated invariant if any."""
+    params = dict(MC_DEFAULT)
+    params.update(MC_CONFIGS.get(name, {}))
+    if overrides:
+        params.update(overrides)
+    d = os.path.join(WORK, "mc")
+    os.makedirs(d, exist_ok=True)
+    mod = "MC_" + name
+    with open(os.path.join(d, mod + ".tla"), "w") as f:
+        f.write("---- MODULE %s ----\nEXTENDS Pie\n" % mod)
+        f.write("MCWriter == <<%s>>\n" % ", ".join(str(x) for x in params["Writer"]))
+        for k in ("RChks", "OChks", "WChks"):
+            f.write("MC%s == {%s}\n" % (k, ", ".join('"%s"' % x for x in params[k])))
+        f.write("MCFs == {%s}\n====\n" % ", ".join(str(x) for x in params["Fs"]))
+    cfg = os.path.join(d, mod + ".cfg")
+    with open(cfg, "w") as f:
+        f.write("SPECIFICATION Spec\nCONSTANTS\n")
+        for k in ("NT", "NR", "NV", "NA", "LEN", "Family", "MaxSessions", "MaxChanges", "MaxRoots", "MaxBU",
+                  "CheckLeftoverOfAborted", "EdgeReinsertMovesToBack", "EmitScenarios"):
+            f.write("  %s = %s\n" % (k, tla_val(params[k])))
+        for k in ("Writer", "RChks", "OChks", "WChks", "Fs"):
+            f.write("  %s <- MC%s\n" % (k, k))
+        f.write("INVARIANTS NoViolation BoundedStack ConsistentHaveOutput StoreWellFormed KnownOnly %s\nVIEW view\nCHECK_DEADLOCK FALSE\n" % extra_inv)
+    md = os.path.join(d, "md_" + name)
+    shutil.rmtree(md, ignore_errors=True)
+    e = dict(os.environ)
+    e["JAVA_TOOL_OPTIONS"] = "-Xss512m -XX:+UseParallelGC -Xmx12g -DTLA-Library=%s" % SPEC
+    w = workers or max(2, min(12, NCPU - 4))
+    cmd = ["timeout", str(timeout), "tlc", "-workers", str(w), "-metadir", md, "-cleanup", "-noGenerateSpecTE"]
+    if simulate:
+        cmd += ["-simulate", "num=%d" % simulate[0], "-depth", str(simulate[1])]
+    cmd += ["-config", cfg, mod + ".tla"]
+    t0 = time.time()
+    p = subprocess.run(cmd, cwd=d, env=e, stdout=subprocess.PIPE, stderr=subprocess.STDOUT, universal_newlines=True)
+    shutil.rmtree(md, ignore_errors=True)
+    out = p.stdout
+    res = {"name": name, "params": {k: params[k] for k in params}, "wall_s": round(time.time() - t0, 1), "rc": p.returncode,
+           "scenario_lines": [l for l in out.split("\n") if l.startswith('"{')] if params.get("EmitScenarios") else [],
+           "distinct": 0, "generated": 0, "depth": 0}
+    mm = re.search(r"(\d+) states generated, (\d+) distinct states found", out)
+    if mm:
+        res["generated"], res["distinct"] = int(mm.group(1)), int(mm.group(2))
+    mm = re.search(r"The number of states generated: (\d+)", out)
+    if mm:
+        res["generated"] = int(mm.group(1))
+    mm = re.search(r"depth of the complete state graph search is (\d+)", out)
+    if mm:
+        res["depth"] = int(mm.group(1))
+    mm = re.search(r"Invariant (\w+) is violated", out)
+    res["violated"] = mm.group(1) if mm else None
+    res["completed"] = "Model checking completed. No error has been found." in out
+    if not res["completed"] and not res["violated"]:
+        res["error_tail"] = out[-1500:]
+    if res["violated"]:
+        km = re.findall(r"/\\ kfs = (\{[^\n]*\})", out)
+        res["kfs"] = km[-1] if km else ""
+        vm = re.findall(r"/\\ viol = (\{[^\n]*\})", out)
+        res["viol"] = vm[-1] if vm else ""
+        res["trace_tail"] = out[-6000:]
+    return res
+
+
+def tlc_scenarios(name, overrides, num, depth, seed, cap=150):
+    """Spec -> implementation: lets TLC simulate the operational spec and returns the explored (program, history) pairs as
+    harness scenarios (undefined program entries become `ret 0`; the trace spec reports reaching one)."""
+    o = dict(overrides)
+    o["EmitScenarios"] = True
+    r = run_mc(name, o, workers=1, timeout=600, simulate=(num, depth))
+    if r["violated"]:
+        return r, []
+    seen = set()
+    scns = []
+    for line in r["scenario_lines"]:
+        try:
+            rec = json.loads(json.loads(line))
+        except Exception:
+            continue
+        key = json.dumps(rec, sort_keys=True)
+        if key in seen:
+            continue
+        seen.add(key)
+        nt, nr, na, ln = rec["nt"], rec["nr"], rec["na"], rec["len"]
+        prog = [[[{"k": "ret", "x": 0, "c": "", "f": 0} for _ in range(na)] for _ in range(ln + 1)] for _ in range(nt)]
+        for e in rec["prog"]:
+            prog[e["t"] - 1][e["pc"]][e["acc"]] = e["op"]
+        init = [-1] * nr
+        hist = []
+        for h in rec["hist"]:
+            if h["s"] == "init":
+                init = h["v"]
+            elif h["s"] == "boom_clr":
+                hist.append({"s": "boom_clr"})
+            else:
+                hist.append(h)
+        scns.append({"id": "tlc-%s-%d-%d" % (name, seed, len(scns)), "family": rec["family"], "nt": nt, "nr": nr,
+                     "nv": rec["nv"], "na": na, "len": ln, "ttype": [0] * nt, "tnum": list(range(1, nt + 1)),
+                     "rtype": [0] * nr, "rnum": list(range(1, nr + 1)), "writer": rec["writer"], "prog": prog,
+                     "init": init, "hist": hist, "note": "generated by TLC simulation of Pie.tla"})
+        if len(scns) >= cap:
+            break
+    return r, scns
